@@ -118,3 +118,21 @@ Fixpoint dot_loop (r : Z) (x y : list Z) : Z :=
   end.
 Definition dot (x y : list Z) : angval := let r := dot_loop 0 x y in if r <=? 0 then AOne else ARatio r 1.
 Definition alternative_dot (x y : list Z) : angval := let r := dot_loop 0 x y in if r <=? 0 then AMax else ARatio r 1.
+
+(* ---- sparse twins of the angular kernels ----
+   sparse_cosine / sparse_alternative_cosine:  _, aux_data = sparse_mul(...); result = sum(aux_data);
+   norm1 = norm(data1), norm2 = norm(data2) (sqrt of the sum of squares: zero iff the sum of squares is zero);
+   same branches as the dense kernels, ratio result / (norm1 * norm2) = result / sqrt (nx * ny) *)
+Definition sum_vals (v : svec) : Z := fold_left (fun acc p => acc + snd p) v 0.
+Definition norm_sq (v : svec) : Z := fold_left (fun acc p => acc + snd p * snd p) v 0.
+Definition sparse_cosine (a b : svec) : angval :=
+  let r := sum_vals (sparse_mul a b) in let nx := norm_sq a in let ny := norm_sq b in
+  if (nx =? 0) && (ny =? 0) then AZero
+  else if (nx =? 0) || (ny =? 0) then AOne
+  else ARatio r (nx * ny).
+Definition sparse_alternative_cosine (a b : svec) : angval :=
+  let r := sum_vals (sparse_mul a b) in let nx := norm_sq a in let ny := norm_sq b in
+  if (nx =? 0) && (ny =? 0) then AZero
+  else if (nx =? 0) || (ny =? 0) then AMax
+  else if r <=? 0 then AMax
+  else ARatio r (nx * ny).
